@@ -66,6 +66,69 @@ def case_term(h):
     return "(mkCase %s %s [%s] %s)" % (pairs(h["hashes"]), init, "; ".join(op_term(o) for o in h["ops"]), obs)
 
 
+MOD = 2305843009213693951
+
+
+def digest(h):
+    """The digest Check.v computes (trace_digest) over the observations of one history."""
+    acc = 7
+    for x in h["obs"]:
+        o = x["out"]
+        t = o["t"]
+        if t == "none":
+            flat = [0]
+        elif t == "val":
+            flat = [2, o.get("v", 0)] if o.get("found") else [1]
+        else:
+            flat = [4, o.get("k", 0), o.get("v", 0)] if o.get("found") else [3]
+        items = x["items"] or []
+        flat += [x["len"], len(items)]
+        for p in items:
+            flat += [p[0], p[1]]
+        for v in flat:
+            acc = (acc * 1000003 + v + 1) % MOD
+    return acc
+
+
+def dcase_term(h):
+    init = "None" if h["init"] < 0 else "(Some %d%%nat)" % h["init"]
+    used = set()
+    for o in h["ops"]:
+        used.add(o.get("k", 0))
+        used.update(p[0] for p in (o.get("l") or []))
+        used.update(o.get("ks") or [])
+    hs = [p for p in h["hashes"] if p[0] in used]   # number literals are what costs time in Coq
+    return "(mkD %s %s [%s] %d)" % (pairs(hs), init, "; ".join(op_term(o) for o in h["ops"]), digest(h))
+
+
+def coq_eval(ctx, terms, shard=250):
+    """Indices of the cases on which model_ok_d / spec_ok_d are false (one vm_compute per shard)."""
+    import re
+
+    def one(s):
+        chunk = terms[s:s + shard]
+        text = HEADER + "Definition cases := [\n" + ";\n".join(chunk) + "].\n"
+        text += ("Fixpoint idx_false {A} (f : A -> bool) (i : nat) (l : list A) : list nat :=\n"
+                 "  match l with [] => [] | x :: r => if f x then idx_false f (S i) r else i :: idx_false f (S i) r end.\n"
+                 "Definition M := Eval vm_compute in (idx_false model_ok_d 0 cases, idx_false spec_ok_d 0 cases).\nPrint M.\n")
+        out, rc = ctx.coq_run("c12_cases_%d" % (s // shard), text, timeout=800)
+        if rc != 0:
+            raise HarnessError("coq evaluation of cases failed:\n" + out[-3000:])
+        m = re.search(r"M\s*=\s*\((.*?),\s*(\[[^\]]*\]|nil)\s*\)\s*:", out, re.S)
+        if not m:
+            raise HarnessError("cannot parse coq output:\n" + out[-2000:])
+        return ([s + int(t) for t in re.findall(r"\d+", m.group(1))], [s + int(t) for t in re.findall(r"\d+", m.group(2))])
+
+    bad_m, bad_s = [], []
+    with cf.ThreadPoolExecutor(max_workers=4) as ex:
+        for a, b in ex.map(one, range(0, len(terms), shard)):
+            bad_m += a
+            bad_s += b
+    return bad_m, bad_s
+
+
+
+
 def plan(ctx):
     """(name, argv-tail, timeout) for every harness invocation of this tier."""
     q = ctx.quick()
@@ -80,7 +143,6 @@ def plan(ctx):
         if q:
             exh(kind, "go", "zero3", "full", 4)
             exh(kind, "star", "zero3", "full", 3)
-            exh(kind, "go", "zero3", "core", 5)
             exh(kind, "go", "prefill", "core", 4)
             exh(kind, "star", "prefill", "core", 3)
         else:
@@ -96,16 +158,36 @@ def plan(ctx):
     for kind in ("dict", "set"):
         for route in ("go", "star"):
             if q:
-                jobs.append(("rand %s/%s" % (kind, route), ["random", "-kind", kind, "-route", route, "-n", "7", "-ops", "1500", "-seed", seed], 300))
+                n = "7" if (kind, route) in (("dict", "go"), ("set", "star")) else "3"
+                jobs.append(("rand %s/%s" % (kind, route), ["random", "-kind", kind, "-route", route, "-n", n, "-ops", "1200", "-seed", seed], 300))
             else:
                 jobs.append(("rand %s/%s" % (kind, route), ["random", "-kind", kind, "-route", route, "-n", "14", "-ops", "10000", "-seed", seed], 840))
-    jobs.append(("sample", ["sample", "-n", "160" if q else "1500", "-maxops", "40", "-seed", seed], 300))
+    jobs.append(("sample", ["sample", "-n", "100" if q else "1500", "-maxops", "32" if q else "40", "-seed", seed], 300))
     return jobs
 
 
+def replay(ctx, hx, path):
+    """bin/check C12 --replay <file>: run one recorded history again on the current tree."""
+    rec = json.load(open(path))
+    h = rec.get("replay", rec)
+    obj = {k: h[k] for k in ("tkind", "route", "hashes", "init", "ops")}
+    p = ctx.sh([hx, "replay"], input=json.dumps(obj), timeout=120)
+    for line in p.stdout.splitlines():
+        if line.startswith("{"):
+            l = json.loads(line)
+            if l.get("kind") == "mismatch":
+                ctx.finding("%s:%s" % (l["tkind"], l["class"]), "replayed history still differs from the association list at operation %s: got %s want %s %s" % (
+                    l.get("at"), l.get("got"), l.get("want"), l.get("msg", "")), obj)
+    if p.returncode != 0:
+        ctx.broken("harness:replay", p.stderr[-600:])
+    return ctx.finish(LEVEL, {"evaluations": len(obj["ops"]), "distinct_nontrivial": 1, "rule": "replay of one recorded history", "samples": [obj]})
+
+
 def run(ctx):
-    ctx.proofs()
     hx = ctx.go_build("c12")
+    if getattr(ctx, "replay_path", None):
+        ctx.proofs()
+        return replay(ctx, hx, ctx.replay_path)
     jobs = plan(ctx)
     results = {}
 
@@ -122,9 +204,12 @@ def run(ctx):
                     pass
         return name, p.returncode, lines, p.stderr[-2000:]
 
-    # the exhaustive runs use 16 workers each; run a few invocations side by side
+    # the exhaustive runs use 16 workers each; run a few invocations side by side,
+    # and build + audit the Coq development meanwhile
     with cf.ThreadPoolExecutor(max_workers=3 if ctx.quick() else 2) as ex:
-        for name, rc, lines, err in ex.map(one, jobs):
+        futs = [ex.submit(one, j) for j in jobs]
+        ctx.proofs()
+        for name, rc, lines, err in (f.result() for f in futs):
             results[name] = lines
             if rc != 0:
                 # a crash / timeout of the harness on this tree is itself an observation
@@ -169,9 +254,9 @@ def run(ctx):
     for h in hs:
         if h.get("err"):
             ctx.finding("%s:panic" % h["tkind"], "host panic / inconsistency while running a history: %s" % h["err"], h)
-    terms = [case_term(h) for h in good]
+    terms = [dcase_term(h) for h in good]
     ctx.log("evaluating %d sample histories in Coq (model and specification)" % len(terms))
-    bad_model, bad_spec = coq_mismatches(ctx, "c12_cases", HEADER, terms, ["model_ok", "spec_ok"], shard=150)
+    bad_model, bad_spec = coq_eval(ctx, terms)
     bad_spec_s = set(bad_spec)
     for i, h in enumerate(good):
         if (i in bad_spec_s) == bool(h.get("go_oracle_ok")):
